@@ -147,6 +147,10 @@ class DumpSpec(c01.ProgSpec):
             atoms.append({'sig': 'dump:invalid-python', 'msg': '%r\n%s' % (ex, out)})
             return {'atoms': atoms, 'outcome': 'syntax-error', 'case': case, 'nontrivial': nontrivial}
         fdefs = [x for x in tree.body if isinstance(x, ast.FunctionDef)]
+        if len(set(f.name for f in fdefs)) != len(fdefs):
+            # two definitions of one name are one function: the earlier doctest is lost when the module is used
+            atoms.append({'sig': 'dump:two-test-functions-share-a-name', 'msg': '%r' % ([f.name for f in fdefs],)})
+            return {'atoms': atoms, 'outcome': 'count', 'case': case, 'nontrivial': nontrivial}
         if len(fdefs) != n_enabled or len(tree.body) != n_enabled:
             atoms.append({'sig': 'dump:function-count', 'msg': '%d functions (%d top-level nodes) for %d enabled doctest(s)' % (
                 len(fdefs), len(tree.body), n_enabled)})
